@@ -87,6 +87,15 @@ func genPrioOps(r *rng, maxIdle int) string {
 		open = append(open, nw)
 		used[nw] = true
 	}
+	if maxIdle > 0 && len(open) == 0 && r.chance(1, 5) {
+		// an idle node for a stream that is not open yet (PRIORITY came first), an open stream made dependent on it, and
+		// then that stream opened as one PUSHED by its own dependant
+		p, q := ids[r.intn(4)], ids[4+r.intn(4)]
+		ops = append(ops, fmt.Sprintf("a%d.0.15.0", p), fmt.Sprintf("o%d", q), fmt.Sprintf("a%d.%d.15.%d", q, p, r.intn(2)),
+			fmt.Sprintf("o%d.%d", p, q), fmt.Sprintf("w%d.16384", p), fmt.Sprintf("w%d.16384", q), fmt.Sprintf("pd%d.100.0", p), fmt.Sprintf("pd%d.100.0", q), "x", "x")
+		open = append(open, p, q)
+		used[p], used[q] = true, true
+	}
 	n := []int{5, 15, 40, 120}[r.intn(4)]
 	adjust := func() {
 		sid := ids[r.intn(len(ids))]
@@ -98,7 +107,13 @@ func genPrioOps(r *rng, maxIdle int) string {
 		case 0, 1, 2:
 			sid := ids[r.intn(len(ids))]
 			if !used[sid] || r.chance(1, 10) { // sometimes re-open a closed / open id (panic or re-creation)
-				ops = append(ops, fmt.Sprintf("o%d", sid))
+				if r.chance(1, 3) {
+					// a pushed stream: it is opened with the id of its associated stream (known, idle, closed or unknown) —
+					// also when an idle node for it exists already, possibly with the pusher depending on that very node
+					ops = append(ops, fmt.Sprintf("o%d.%d", sid, []int{ids[r.intn(len(ids))], ids[r.intn(len(ids))], 0, 23}[r.intn(4)]))
+				} else {
+					ops = append(ops, fmt.Sprintf("o%d", sid))
+				}
 				if !used[sid] {
 					open = append(open, sid)
 				}
@@ -159,8 +174,17 @@ func init() {
 			r := c.rng.fork()
 			maxIdle := []int{0, 1, 2, 4, 10}[r.intn(5)]
 			kind := fmt.Sprintf("prio:%d:%d:%d", []int{0, 1, 2, 4, 10}[r.intn(5)], maxIdle, r.intn(2))
+			if strings.HasSuffix(kind, ":1") && r.chance(1, 3) {
+				// the throttle limit as it stands after ~2^21 consecutive out-of-order Pops (+1024 each): at the int32 boundary
+				kind += fmt.Sprintf(":%d", []int{2147483647, 2147483647 - 1000, 2147483647 - 1023, 2147483647 - 1024, 2147483647 - 2047}[r.intn(5)])
+				c.tag("throttle-limit-near-int32-max")
+			}
 			c.tag("kind:" + kind[:4])
 			ops := genPrioOps(r, maxIdle)
+			if strings.Count(kind, ":") == 4 {
+				// ... and the run goes on out of order: a stream with data below an open ancestor that has none
+				ops = "o1;o3;a3.1.15.0;w3.65535;pd3.3000.0;pd3.3000.0;pd3.3000.1;x;x;x;x;" + ops
+			}
 			c.tag("ops:" + bucket(strings.Count(ops, ";")+1))
 			c.op(fmt.Sprintf("sched kind=%s ops=%s", kind, ops))
 			c.op(fmt.Sprintf("schedtrace kind=%s ops=%s", kind, ops)) // oracle: the trace specification judges the answers
